@@ -809,6 +809,99 @@ class Assembler:
             k += 1
         return res
 
+    def find_closures(self, v, a, b):
+        """immediately-invoked closures `( || -> T { .. } ) ( )` inside (a,b): list of (open, type_start, body_open, body_close, end)"""
+        res = []
+        k = a
+        while k < b:
+            if v.is_p(k, "(") and v.is_p(k + 1, "||") and v.is_p(k + 2, "->"):
+                j = k + 3
+                while j < b and not v.is_p(j, "{"):
+                    j += 1
+                if j < b:
+                    cb = v.match[j]
+                    if v.is_p(cb + 1, ")") and v.is_p(cb + 2, "(") and v.is_p(cb + 3, ")"):
+                        res.append((k, k + 3, j, cb, cb + 4))
+                        k = cb + 4
+                        continue
+            k += 1
+        return res
+
+    def emit_closure_fn(self, fs, mode):
+        """R20 (lambda lifting): the N-th immediately-invoked closure of the host function, emitted as a function of its own
+        whose parameters are the captured variables (declared in the contract file); variables captured by mutable
+        reference are dereferenced.  The closure body is the real source text, rewritten by the same rules as any body."""
+        fi, it = self.find_fn(fs.path)
+        v = fi.v
+        name_idx = self.sig_parts(v, it)[0]
+        src_name = v.text(name_idx)
+        tag = fs.path.split("#")[1]
+        base_name = src_name + "__" + tag
+        emit_name = base_name + {"home": "", "canary": "__canary"}[mode]
+        body_a, body_b = it.body[0] + 1, it.body[1]
+        # cfg-removed regions of the host are invisible
+        host_edits = self.rules_body(fi, it.start, it.end, None)
+        removed = [(e.a, e.b) for e in host_edits if e.rule in ("R1", "R2") and e.text == "" and e.b - e.a > 3]
+        cls = [c for c in self.find_closures(v, body_a, body_b) if not any(ra <= c[0] < rb for ra, rb in removed)]
+        if fs.closure > len(cls):
+            if fs.closure_optional:
+                self.log.append({"rule": "R20", "file": fi.v.path.replace(REPO + "/", ""), "line": v.t[it.kw].line, "note": f"closure {fs.closure} of {src_name} absent in this build: {emit_name} not emitted"})
+                return None
+            raise ExtractError(f"lost anchor: {fs.path}: the function has {len(cls)} immediately-invoked closures, contract is for number {fs.closure}")
+        k0, ty_a, cb_open, cb_close, end = cls[fs.closure - 1]
+        head = f"/*@L lifted*/ " + " ".join(fs.attrs if mode == "home" else []) + f" fn {emit_name}{fs.sig} /*@E*/"
+        if mode == "canary":
+            cl = [c for c in VS.split_clauses(fs.spec) if c[0] == "requires"]
+            text = "requires\n" + "\n".join(c[2] for c in cl) + "\n" if cl else ""
+            spec = self.spec_text(fs, text, emit_name, mode) if text.strip() else ""
+            text_out = head + f" /*@L canary*/ {spec} {{ assert(false); }} /*@E*/"
+        else:
+            edits = self.rules_body(fi, ty_a, cb_close + 1, fs)
+            for k in range(cb_open + 1, cb_close):
+                if v.t[k].kind == IDENT and v.text(k) in fs.deref and not v.is_p(k - 1, ".") and not v.is_p(k - 1, "::") and not (v.is_p(k + 1, ":") and not v.is_p(k + 1, "::")):
+                    edits.append(Edit(k, k + 1, f"(*{v.text(k)})", "R20", f"captured by mutable reference: {v.text(k)} -> (*{v.text(k)})"))
+            inserts = [Ins(ty_a, f"({fs.ret}:", "ret", 0), Ins(cb_open, ")", "ret", 0)]
+            spec = self.spec_text(fs, fs.spec, emit_name, mode) if fs.spec.strip() else ""
+            if spec:
+                inserts.append(Ins(cb_open, spec, f"spec:{fs.path}:{mode}", 1))
+            self._removed = []
+            loops = self.find_loops(v, cb_open + 1, cb_close)
+            for n, (itname, ltext) in fs.loops.items():
+                if n > len(loops):
+                    self.lost.append({"fn": fs.path, "emitted": emit_name, "what": f"loop {n} (closure now has {len(loops)} loops)"})
+                    continue
+                kw, ob = loops[n - 1]
+                if itname:
+                    q = kw
+                    while not v.is_id(q, "in"):
+                        q += 1
+                    inserts.append(Ins(q + 1, f"{itname}:", "loop-iter"))
+                inserts.append(Ins(ob, self.spec_text(fs, ltext, emit_name, f"loop{n}"), f"loop:{fs.path}:{n}"))
+            for h in fs.hints:
+                r = self.find_anchor(v, cb_open + 1, cb_close, h.anchor, h.occ)
+                if r is None:
+                    self.lost.append({"fn": fs.path, "emitted": emit_name, "what": f"occurrence {h.occ} of `{h.anchor}`"})
+                    continue
+                if h.mode == "before":
+                    inserts.append(Ins(r[0], h.text, f"hint:{fs.path}", 2))
+                elif h.mode == "past":
+                    inserts.append(Ins(r[1], h.text, f"hint:{fs.path}", 2))
+                elif h.mode == "wrap":
+                    pre, _, post = h.text.partition("\n---\n")
+                    inserts.append(Ins(r[0], pre, f"hint:{fs.path}", 3))
+                    inserts.append(Ins(r[1], post, f"hint:{fs.path}", -1))
+                else:
+                    e = self.stmt_end(v, r[0], cb_close)
+                    inserts.append(Ins(e, h.text, f"hint:{fs.path}", 2))
+            self.log.append({"rule": "R20", "file": fi.v.path.replace(REPO + "/", ""), "line": v.t[k0].line, "note": f"immediately-invoked closure lifted to fn {emit_name}{fs.sig}"})
+            text_out = head + " /*@L lifted*/ -> /*@E*/ " + self.render(fi, ty_a, cb_close + 1, edits, inserts)
+        first = self.cur_line()
+        self.emit("\n" + text_out + "\n")
+        last = self.cur_line()
+        self.funcs.setdefault(emit_name, []).append({"path": fs.path, "mode": mode, "first": first, "last": last, "props": fs.props,
+                                                     "src_line": v.t[k0].line, "file": fi.v.path.replace(REPO + "/", ""), "bodyless": False})
+        return fi, it
+
     def find_anchor(self, v, a, b, anchor, occ):
         seq = [t.text for t in tokenize(anchor) if t.kind not in (WS, COMMENT)]
         n = len(seq)
@@ -845,6 +938,10 @@ class Assembler:
 
     def emit_fn(self, fs, mode="home", impl_ctx=None):
         """mode: home | strict | canary | extern"""
+        if fs.closure:
+            if mode not in ("home", "canary"):
+                raise ExtractError(f"{fs.path}: a lifted closure has no {mode} form")
+            return self.emit_closure_fn(fs, mode)
         fi, it = self.find_fn(fs.path)
         v = fi.v
         name_idx, po, pc, arrow, ret_a, ret_b, where, body_open = self.sig_parts(v, it)
@@ -927,6 +1024,15 @@ class Assembler:
         if mode in ("home", "strict"):
             # text removed by cfg evaluation (R1/R2) is invisible to loop ordinals and anchors
             removed = [(e.a, e.b) for e in edits if e.rule in ("R1", "R2") and e.text == "" and e.b - e.a > 3]
+            if fs.callclosure:
+                # R20: the immediately-invoked closures named in the contract file are replaced by calls to their lifted copies
+                cls = [c for c in self.find_closures(v, body_a, body_b) if not any(ra <= c[0] < rb for ra, rb in removed)]
+                for n, call in fs.callclosure.items():
+                    if n <= len(cls):
+                        k0, _, _, _, end = cls[n - 1]
+                        edits = [e for e in edits if not (k0 <= e.a and e.b <= end)]
+                        edits.append(Edit(k0, end, call, "R20", f"immediately-invoked closure {n} -> {call.split('(')[0]}(..)"))
+                        removed.append((k0, end))
             self._removed = removed
             loops = [l for l in self.find_loops(v, body_a, body_b) if not any(ra <= l[0] < rb for ra, rb in removed)]
             for n, (itname, ltext) in fs.loops.items():
@@ -1224,7 +1330,8 @@ def unmarked_tokens(text):
 def strip_vis(text):
     """prelude / raw text: everything lives in one private module, so visibility keywords (and the
     open/closed markers that only make sense on pub functions) are removed"""
-    return re.sub(r"\bpub\s+((open|closed)\s+(?=spec\b))?", "", text)
+    # (`pub assume_specification` must stay pub: Verus requires it to be as visible as the std function it describes)
+    return re.sub(r"\bpub\s+(?!assume_specification\b)((open|closed)\s+(?=spec\b))?", "", text)
 
 
 def normalise_pub(tokens):
